@@ -77,7 +77,11 @@ fn build(rng: &mut Rng, plen: usize, npk: usize, rep: &mut Report) -> Option<Tra
     };
     let ext_len: usize = exts.as_ref().map(|v| v.iter().map(|e| e.len()).sum()).unwrap_or(0);
     let first_buf = 7 + ll + ext_len + per;
-    let t = build_train(&mut enc, &pdu, id, meta, exts, |k| if k == 0 { first_buf } else if k + 1 < npk { 3 + per } else { 4097 }, 16).ok()?;
+    // one train in four ends with a fragment that carries ONLY the CRC: the last intermediate fragment gets a
+    // buffer in which the rest of the PDU fits but the trailer does not
+    let crc_only_end = npk >= 3 && rng.chance(1, 4);
+    let rest_after = plen.saturating_sub(per * (npk - 1));
+    let t = build_train(&mut enc, &pdu, id, meta, exts, |k| if k == 0 { first_buf } else if crc_only_end && k + 1 == npk { 3 + rest_after } else if k + 1 < npk { 3 + per } else { 4097 }, 16).ok()?;
     if !t.complete || t.pkts.len() < 2 {
         rep.count("c03.train-not-fragmented");
         return None;
